@@ -1036,7 +1036,11 @@ func main() {
 		var ej EvmCase
 		hlib.ReadReplayCase(f.Replay, &ej)
 		if ej.Evm {
-			evmCases(c, ej.Shape)
+			if strings.HasPrefix(ej.Shape, "create-") {
+				createCases(c, ej.Shape)
+			} else {
+				evmCases(c, ej.Shape)
+			}
 			cw.Close()
 			rep.Write(f.Out)
 			return
@@ -1057,6 +1061,7 @@ func main() {
 		c.evalCase(cc.setup, cc.ops, "corpus", true)
 	}
 	evmCases(c, "")
+	createCases(c, "")
 	al := alphabet()
 	small := append(append([]Op{}, al[:9]...), Op{K: "Suicide", A: 1}, Op{K: "AddBalance", A: 1, V: 2}, Op{K: "AddLog", V: 1})
 	if f.Tier == "thorough" {
